@@ -35,10 +35,9 @@ inductive Op
   | importAlias (keys : List Str) (bind : Str) (idx : Nat) (plain : Bool)
   /-- entering / leaving a statement whose parts may not run (`_conditional_depth`; only matters in unused-import mode) -/
   | condEnter | condExit
-  /-- `except E as n`: remember whether `n` was bound in the top scope (`previous = scope.get(n, missing)`) -/
-  | saveHas (name : Str)
-  /-- … and put the previous binding back after the handler (`scope[n] = previous`) -/
-  | restoreHas (name : Str)
+  /-- end of `except E as n` (c9ece75): `scope.pop(n, None)`, the keys `n.…` go too; in unused-import mode the checkers
+      shadowed by the popped value are marked used -/
+  | handlerEnd (name : Str)
   deriving DecidableEq, Repr
 
 /-! ### compile: AST → visitor actions in visit order -/
@@ -63,8 +62,8 @@ structure Fixes where
   allUseMark : Bool := false
   /-- `del foo` also removes the keys `foo.…` stored by `import foo.bar` -/
   delDotted : Bool := false
-  /-- a21b6de: stores inside `if`/`for`/`while`/`try` do not report the overwritten import as unused, and the binding that
-      preceded `except … as n` is put back after the handler -/
+  /-- a21b6de / c9ece75: `_conditional_depth` is counted for `if`/`for`/`while`/`try` (a store there shadows, rather than
+      replaces, the unused imports it overwrites), and the end of `except … as n` also drops the keys `n.…` -/
   condStore : Bool := false
   /-- 0e29f32 (unused-import mode): a name read by a function body seen so far is not reported as rebound-without-use -/
   deferredNames : Bool := false
@@ -267,10 +266,10 @@ mutual
     | [] => []
     | .mk l type name body :: hs =>
       .setLine l :: (cOptExpr fx type
-          ++ (match name with | some n => (if fx.condStore then [.saveHas n] else []) ++ [.store n] | none => [])
+          ++ (match name with | some n => [.store n] | none => [])
           ++ cStmts fx l body
           ++ (match name with
-              | some n => if fx.exceptUnbind then .delName n false :: (if fx.condStore then [.restoreHas n] else []) else []
+              | some n => if fx.exceptUnbind then (if fx.condStore then [.handlerEnd n] else [.delName n false]) else []
               | none => []))
         ++ cHandlers fx ln hs
 end
@@ -303,8 +302,6 @@ structure AState where
   missing : List Missing := []
   deferred : List Deferred := []
   log : List Effect := []
-  /-- `previous is not missing` of the enclosing `except … as n` handlers, innermost first -/
-  savedHas : List Bool := []
   deriving Repr
 
 def AState.emit (st : AState) (es : List Effect) : AState := { st with log := st.log ++ es }
@@ -397,11 +394,14 @@ def step (reg : Registry) (st : AState) : Op → AState
   | .importAlias keys _ _ _ => keys.foldl storeTop st
   | .condEnter => st
   | .condExit => st
-  | .saveHas name => { st with savedHas := ((st.heap.get st.stack.top).get name).isSome :: st.savedHas }
-  | .restoreHas name =>
-    match st.savedHas with
-    | [] => st
-    | b :: r => if b then storeTop { st with savedHas := r } name else { st with savedHas := r }
+  | .handlerEnd name =>
+    let i := st.stack.top
+    let st1 : AState :=
+      if ((st.heap.get i).get name).isSome then
+        { st with heap := st.heap.update i (·.del name), log := st.log ++ [.nsDel i name] }
+      else st
+    { st1 with heap := st1.heap.update i (·.delBelow name),
+               log := st1.log ++ ((st1.heap.get i).dottedBelow name).map (Effect.nsDel i) }
   | .delName name deep =>
     let i := st.stack.top
     if ((st.heap.get i).get name).isSome then
